@@ -32,15 +32,15 @@ PROPS["C18"] = dict(
         run("bytes", "c18_rc", "env_bytes", "rc", dict(procs=1, cases=30000, max_size=40),
             dict(procs=2, cases=300000, max_size=60)),
         run("merge", "c18_rc", "res_merge", "rc", dict(procs=1, cases=20000), dict(procs=4, cases=150000)),
-        run("detect", "c18_rc", "res_detect", "rc", dict(procs=2, cases=15000), dict(procs=4, cases=150000)),
+        run("detect", "c18_rc", "res_detect", "rc", dict(procs=2, cases=15000), dict(procs=4, cases=100000)),
         run("detect-bytes", "c18_rc", "res_detect_bytes", "rc", dict(procs=1, cases=10000, max_size=40),
             dict(procs=2, cases=200000, max_size=60)),
         # fork per case (about 6 ms / 14 ms each): modest counts, every child does several checks
-        run("create", "c18_rc", "res_create", "rc", dict(procs=3, cases=1500), dict(procs=6, cases=20000)),
-        run("disabled", "c18_rc", "sdk_disabled", "rc", dict(procs=2, cases=1000), dict(procs=6, cases=12000)),
+        run("create", "c18_rc", "res_create", "rc", dict(procs=3, cases=1500), dict(procs=6, cases=12000)),
+        run("disabled", "c18_rc", "sdk_disabled", "rc", dict(procs=2, cases=1000), dict(procs=6, cases=7000)),
         run("bytes-fuzz", "c18_fuzz", "env_bytes", "fuzz", dict(procs=2, cases=300000, max_len=64),
-            dict(procs=6, cases=4000000, max_len=96), replay_bin="c18_rc"),
+            dict(procs=6, cases=2500000, max_len=96), replay_bin="c18_rc"),
         run("detect-fuzz", "c18_fuzz", "res_detect_bytes", "fuzz", dict(procs=1, cases=40000, max_len=48),
-            dict(procs=4, cases=600000, max_len=96), replay_bin="c18_rc"),
+            dict(procs=4, cases=400000, max_len=96), replay_bin="c18_rc"),
     ],
 )
